@@ -35,8 +35,9 @@ def pick_qty(rng, base_value, b, sig=2, any_prefix=False):
 
 
 class Gen:
-    def __init__(self, rng, nsubs=None, kinds=None):
+    def __init__(self, rng, nsubs=None, kinds=None, scale=1.0):
         self.rng = rng
+        self.scale = scale
         lib = [s for s in LIBRARY if kinds is None or s['kind'] in kinds]
         k = nsubs or rng.randint(3, 5)
         # always at least one liquid; mixtures of solids, liquids and enzymes
@@ -97,8 +98,9 @@ class Gen:
         return self.rng.choice(c) if c else None
 
     # -------------------------------------------------------------- operations
-    def new_container(self, nsub=None, max_ml=None, scale=1.0):
+    def new_container(self, nsub=None, max_ml=None, scale=None):
         rng = self.rng
+        scale = self.scale if scale is None else scale
         n = nsub if nsub is not None else rng.choice([1, 2, 2, 3, 3, 4])
         init = []
         used = set()
@@ -129,8 +131,15 @@ class Gen:
             self.containers.append(op['out'])
         return op['out'] if o['ok'] else None
 
-    def new_plate(self, rows=None, cols=None, max_ul=None):
+    def new_plate(self, rows=None, cols=None, max_ul=None, twin_of=None):
         rng = self.rng
+        if twin_of is not None:   # a replicate: same name and shape as an existing plate, different object
+            t = [o for o in self.ops if o['op'] == 'newp' and o['out'] == twin_of][0]
+            op = dict(t, out=self.fresh())
+            o = self.emit(op, 'twin-plate')
+            if o['ok']:
+                self.plates.append(op['out'])
+            return op['out'] if o['ok'] else None
         op = {'op': 'newp', 'out': self.fresh(), 'name': self.name(), 'rows': rows or rng.randint(1, 4),
               'cols': cols or rng.randint(1, 5),
               'max': {'v': str(max_ul or rng.choice([200, 500, 1000, 2000])), 'p': 'u', 'b': 'L'}}
@@ -374,14 +383,22 @@ class Gen:
         return {'subs': self.subs, 'ops': self.ops}
 
 
-def history(rng, nops, weights=None, with_plates=True):
-    """a random mostly-valid history of about nops operations"""
-    g = Gen(rng)
+def history(rng, nops, weights=None, with_plates=True, trace=False):
+    """a random mostly-valid history of about nops operations; trace = nanomole-scale amounts, no enzymes"""
+    g = Gen(rng, kinds=('Liquid', 'Solid'), scale=1e-6) if trace else Gen(rng)
+    first_plate = None
     g.new_container()
     g.new_container()
     if with_plates:
-        g.new_plate()
+        first_plate = g.new_plate()
         g.transfer_cp(frac=0.5, kind='all')
+        if rng.random() < 0.5:
+            if rng.random() < 0.5:
+                g.new_plate(twin_of=first_plate)
+            else:
+                g.new_plate()
+            if rng.random() < 0.6:
+                g.transfer_cp(frac=0.3, kind='all')
     w = weights or {'newc': 1, 'newp': 0.5, 'cc': 4, 'cp': 3, 'pc': 2, 'pp': 3, 'remove': 1.5, 'fill': 1.5, 'bad': 1}
     if not with_plates:
         w = {k: v for k, v in w.items() if k not in ('newp', 'cp', 'pc', 'pp')}
@@ -394,7 +411,10 @@ def history(rng, nops, weights=None, with_plates=True):
             g.new_container()
         elif k == 'newp':
             if len(g.plates) < 2:
-                g.new_plate()
+                if first_plate is not None and rng.random() < 0.5:
+                    g.new_plate(twin_of=first_plate)
+                else:
+                    g.new_plate()
         elif k == 'cc':
             g.transfer_cc()
         elif k == 'cp':
